@@ -9,7 +9,7 @@ From ClapModel Require Import Derive.DeriveModel Derive.DeriveProofs.
 From ClapModel Require Import ParseProofs.Actions ParseProofs.ActionsLoop ParseProofs.Unparse ParseProofs.UnparseTop ParseProofs.UnparseTree.
 From ClapModel Require Import Derive.DeriveCmd Derive.DeriveArgs Derive.DeriveParse Derive.DeriveUpdate Derive.DeriveAccept Derive.DeriveParseEx.
 From ClapModel Require Import Parse.Validator ParseProofs.Relations ParseProofs.ValidateTotal Derive.DerivePost Derive.DerivePostEx.
-From ClapModel Require Import ParseProofs.Dispatch Derive.LoopInv Derive.DeriveTotal Derive.DeriveTotalEx.
+From ClapModel Require Import ParseProofs.Dispatch Derive.LoopInv Derive.DeriveFlat Derive.DeriveTotal Derive.DeriveTotalEx.
 From ClapModel Require Import ParseProofs.KindSound Derive.DeriveUpdateLine Derive.DeriveUpdateLineEx.
 From Coq Require Import ZArith List.
 Import ListNotations.
@@ -507,3 +507,43 @@ Proof.
   split; [exact H3|exact FitsEx.ex_unfit].
 Qed.
 Print Assumptions C15_roundtrip_parse_class_nonvacuous.
+
+(** * Round 3: flattened structs (Derive/DeriveFlat.v) -- the generated command in closed form, the first sentence for all argv *)
+
+(** [gen_augment] over fields and flatten nodes (any nesting, optional or not; no subcommand field) in closed form: the
+    arguments of the leaf fields in declaration order, the struct groups, nothing else. *)
+Theorem C15_generated_command_flat : forall ovr d, flat_nodes (d_nodes d) = true ->
+  augment ovr (d_gid d) (d_nodes d) (cmd_new (d_name d)) =
+  root_cmd (d_name d) (map (field_arg ovr) (leaves (d_nodes d))) (struct_group (d_gid d) (d_nodes d) :: sgroups (d_nodes d)) None.
+Proof. exact derive_cmd_flat. Qed.
+Print Assumptions C15_generated_command_flat.
+
+(** EXTRACTION CANNOT FAIL AFTER A SUCCESSFUL COMMAND PARSE, ALL ARGV, structs of fields and flattened structs (optional
+    flattens included: their members are extracted only when the group is present, and are then guaranteed like any other). *)
+Theorem C15_extract_total_argv_flat : forall d argv m,
+  flat_nodes (d_nodes d) = true -> wf_nodes (d_nodes d) -> Forall guarded (leaves (d_nodes d)) ->
+  valid (with_bin (derive_cmd d) (hd [] argv)) = true ->
+  parse_top (derive_cmd d) argv = OOk m -> enum_ok_nodes (d_nodes d) m = true ->
+  exists vs, extract d m = XOk vs.
+Proof. exact extract_total_argv_flat. Qed.
+Print Assumptions C15_extract_total_argv_flat.
+
+Theorem C15_parse_succeeds_iff_command_flat : forall d argv,
+  flat_nodes (d_nodes d) = true -> wf_nodes (d_nodes d) -> Forall guarded (leaves (d_nodes d)) ->
+  valid (with_bin (derive_cmd d) (hd [] argv)) = true ->
+  ((exists vs, derived_parse d argv = PValue vs) <-> (exists m, cmd_parse (derive_cmd d) (d_nodes d) argv = OOk m)).
+Proof. exact parse_iff_command_flat. Qed.
+Print Assumptions C15_parse_succeeds_iff_command_flat.
+
+(** Non-vacuity: [{ a: String, #[flatten] inner: { b: u8, c: bool }, #[flatten] opt: Option<{ e: Option<u8> }> }] on
+    [prog --bb 3 --aa x]. *)
+Theorem C15_extract_total_argv_flat_nonvacuous :
+  flat_nodes (d_nodes FlatEx.d) = true /\ wf_nodes (d_nodes FlatEx.d) /\ Forall guarded (leaves (d_nodes FlatEx.d))
+  /\ valid (with_bin (derive_cmd FlatEx.d) (hd [] FlatEx.argv)) = true
+  /\ derived_parse FlatEx.d FlatEx.argv =
+       PValue [DOne (SvStr [120]); DStruct [DOne (SvInt 3%Z); DOne (SvBool false)]; DOptStruct None].
+Proof.
+  split; [exact FlatEx.ex_flat|]. split; [exact FlatEx.ex_wf|]. split; [exact FlatEx.ex_guarded|].
+  split; [exact FlatEx.ex_valid|exact FlatEx.ex_value].
+Qed.
+Print Assumptions C15_extract_total_argv_flat_nonvacuous.
